@@ -489,3 +489,229 @@ contract(
         )
     ],
 )
+
+# =====================================================================================================
+# GeoboxTiles (C04: tile (r,c) is the parent cropped to that region; C12: queries)
+# =====================================================================================================
+
+from .geobox_c import BBOX, GEOBOX, T_, view  # noqa: E402
+
+GBX = "odc.geo.geobox"
+GEOM = "odc.geo.geom"
+
+
+def GBT(crs="EPSG:3857"):
+    return Obj(f"{GBX}:GeoboxTiles", _gbox=GEOBOX(crs), _tiles=TILES(1))
+
+
+def wf_gbt(t):
+    return And(wf_tiles(t._tiles), t._tiles._base_shape.y == t._gbox.shape.y, t._tiles._base_shape.x == t._gbox.shape.x)
+
+
+contract(
+    f"{GBX}:GeoboxTiles.__getitem__",
+    ["C04", "C12"],
+    inputs=dict(self=GBT(), idx=Tup(Int(ge=0), Int(ge=0))),
+    requires=[lambda self: wf_gbt(self), lambda self, idx: And(idx[0] < self._tiles._shape.y, idx[1] < self._tiles._shape.x)],
+    ensures=[
+        (
+            "tile (r, c) of a tiled GeoBox is exactly the parent GeoBox cropped to the tile's region",
+            lambda self, idx, result: view(
+                result,
+                self._gbox,
+                T_(o_reg(idx[1], self._gbox.shape.x, self._tiles._tile_shape.x), o_reg(idx[0], self._gbox.shape.y, self._tiles._tile_shape.y)),
+                (
+                    o_reg(idx[0] + 1, self._gbox.shape.y, self._tiles._tile_shape.y) - o_reg(idx[0], self._gbox.shape.y, self._tiles._tile_shape.y),
+                    o_reg(idx[1] + 1, self._gbox.shape.x, self._tiles._tile_shape.x) - o_reg(idx[1], self._gbox.shape.x, self._tiles._tile_shape.x),
+                ),
+            ),
+        )
+    ],
+)
+
+contract(
+    f"{GBX}:GeoboxTiles.pix_bbox",
+    ["C12", "C04"],
+    inputs=dict(self=GBT(), idx=Tup(Int(ge=0), Int(ge=0))),
+    requires=[lambda self: wf_gbt(self), lambda self, idx: And(idx[0] < self._tiles._shape.y, idx[1] < self._tiles._shape.x)],
+    ensures=[
+        (
+            "pixel-space bounding box of the tile's region",
+            lambda self, idx, result: And(
+                result.left == o_reg(idx[1], self._gbox.shape.x, self._tiles._tile_shape.x),
+                result.right == o_reg(idx[1] + 1, self._gbox.shape.x, self._tiles._tile_shape.x),
+                result.bottom == o_reg(idx[0], self._gbox.shape.y, self._tiles._tile_shape.y),
+                result.top == o_reg(idx[0] + 1, self._gbox.shape.y, self._tiles._tile_shape.y),
+                result.crs is None,
+            ),
+        )
+    ],
+    returns=lambda self: Build(f"{GEOM}:BoundingBox", Int(), Int(), Int(), Int(), None),
+)
+
+contract(
+    f"{GBX}:GeoboxTiles.range_from_bbox",
+    ["C12"],
+    inputs=dict(self=GBT(), bbox=BBOX(None), r=Int(ge=0), c=Int(ge=0)),
+    requires=[lambda self: wf_gbt(self), lambda bbox: And(bbox.left <= bbox.right, bbox.bottom <= bbox.top), lambda self, r, c: And(r < self._tiles._shape.y, c < self._tiles._shape.x)],
+    ensures=[
+        (
+            "complete: every tile whose pixel rectangle intersects the box lies in the returned index ranges ((r, c) is a ghost tile, universally quantified)",
+            lambda self, bbox, r, c, result: Implies(
+                And(
+                    o_reg(c, self._gbox.shape.x, self._tiles._tile_shape.x) <= bbox.right,
+                    bbox.left <= o_reg(c + 1, self._gbox.shape.x, self._tiles._tile_shape.x),
+                    o_reg(r, self._gbox.shape.y, self._tiles._tile_shape.y) <= bbox.top,
+                    bbox.bottom <= o_reg(r + 1, self._gbox.shape.y, self._tiles._tile_shape.y),
+                    # the open pixel rectangle actually meets the box (a contact along an outer edge of the tile selects no pixel)
+                    o_reg(c, self._gbox.shape.x, self._tiles._tile_shape.x) < bbox.right,
+                    bbox.left < o_reg(c + 1, self._gbox.shape.x, self._tiles._tile_shape.x),
+                    o_reg(r, self._gbox.shape.y, self._tiles._tile_shape.y) < bbox.top,
+                    bbox.bottom < o_reg(r + 1, self._gbox.shape.y, self._tiles._tile_shape.y),
+                ),
+                And(result[0].start <= r, r < result[0].stop, result[1].start <= c, c < result[1].stop),
+            ),
+        ),
+        (
+            "a box that lies strictly outside the raster selects no tile (empty ranges, not an error)",
+            lambda self, bbox, result: Implies(
+                Or(bbox.right < 0, bbox.left > self._gbox.shape.x, bbox.top < 0, bbox.bottom > self._gbox.shape.y),
+                Or(result[0].stop <= result[0].start, result[1].stop <= result[1].start),
+            ),
+        ),
+        ("ranges stay within the tiling", lambda self, result: And(0 <= result[0].start, result[0].stop <= self._tiles._shape.y, 0 <= result[1].start, result[1].stop <= self._tiles._shape.x)),
+    ],
+    note="pixel-space boxes (crs None) on regular tilings; boxes with a CRS are first projected (pyproj/shapely): bounded check only",
+)
+
+
+# ---- bounded stand-ins for the enumerating queries (shapely / pyproj / itertools) --------------------------------------------------
+
+
+def _mk_tiled(kind):
+    from affine import Affine
+
+    from odc.geo.geobox import GeoBox, GeoboxTiles
+
+    base = Affine(10.0, 0.0, 500000.0, 0.0, -10.0, 6000000.0)
+    A = {"north_up": base, "mirrored": base * Affine.translation(64, 0) * Affine.scale(-1, 1), "rotated": base * Affine.rotation(30.0), "rot_shear": base * Affine.rotation(-50.0) * Affine.shear(10, 0)}[kind]
+    g = GeoBox((50, 64), A, "EPSG:32633")
+    return g
+
+
+def _tq_samples():
+    import itertools
+
+    from affine import Affine
+
+    from odc.geo import geom
+    from odc.geo.geobox import GeoboxTiles
+
+    def gen():
+        for kind, tiling in itertools.product(("north_up", "mirrored", "rotated", "rot_shear"), ((16, 16), (50, 7), ((10, 25, 15), (30, 1, 33)))):
+            g = _mk_tiled(kind)
+            gt = GeoboxTiles(g, tiling)
+            # query geometries built in pixel space of the raster, then mapped to the world / other CRS
+            boxes = [(-30, -30, -5, -5), (-10, -10, 20, 12), (20, 10, 40, 30), (60, 45, 90, 70), (-100, -100, 200, 200), (16, 16, 32, 32), (70, 10, 90, 20)]
+            for (x0, y0, x1, y1), crs, as_bbox in itertools.product(boxes, ("same", "EPSG:4326", "EPSG:3857"), (False, True)):
+                poly_pix = geom.box(x0, y0, x1, y1, None)
+                poly = g.project(poly_pix)  # pixel -> world
+                if crs != "same":
+                    poly = poly.to_crs(crs)
+                q = poly.boundingbox if as_bbox else poly
+                yield dict(self=gt, query=q)
+
+    return "4 rasters (north-up, mirrored, rotated 30deg, rotated+sheared) x 3 tilings (regular 16x16, 50x7, variable) x 7 query regions (outside, straddling, inside, larger than the raster, on tile edges) x same CRS / EPSG:4326 / EPSG:3857 x polygon / bounding box", gen()
+
+
+def _tq_post(self, query, result):
+    from odc.geo.geom import BoundingBox
+
+    got = sorted(result)
+    poly = query.polygon if isinstance(query, BoundingBox) else query
+    if self.base.crs is not None and poly.crs is not None and poly.crs != self.base.crs:
+        poly = poly.to_crs(self.base.crs)
+    ny, nx = self.shape.yx
+    must, may = [], []
+    for r in range(ny):
+        for c in range(nx):
+            ext = self[r, c].extent
+            if ext.intersects(poly) and ext.intersection(poly).area > 1e-6 * ext.area:
+                must.append((r, c))
+            if not ext.disjoint(poly.buffer(1e-6 * max(1.0, abs(ext.boundingbox.span_x)))):
+                may.append((r, c))
+    complete = set(must) <= set(got)
+    only = True if isinstance(query, BoundingBox) else set(got) <= set(may)  # geometry queries return only intersecting tiles
+    return complete and only and len(set(got)) == len(got)
+
+
+contract(
+    f"{GBX}:GeoboxTiles.tiles",
+    ["C12"],
+    ensures=[("returns every tile whose footprint intersects the query and, for geometry queries, only such tiles; no duplicates", _tq_post)],
+    verify=False,
+    trusted_reason="shapely predicates, pyproj projection of the query, itertools.product over the ranges: BOUNDED native check against brute force over all tiles",
+    native_samples=_tq_samples,
+)
+
+
+def _gi_samples():
+    import itertools
+
+    from affine import Affine
+
+    from odc.geo.geobox import GeoBox, GeoboxTiles
+
+    def gen():
+        src = _mk_tiled("north_up")
+        rel = {
+            "aligned": Affine.translation(16, 8),
+            "subpixel": Affine.translation(5.3, -2.6),
+            "scaled": Affine.scale(2.0) * Affine.translation(-3, 4),
+            "rotated": Affine.rotation(25.0),
+            "touching": Affine.translation(64, 0),
+            "disjoint": Affine.translation(300, 300),
+            "disjoint_rot": Affine.translation(400, -300) * Affine.rotation(10.0),
+        }
+        for (name, M), st, dt in itertools.product(rel.items(), ((16, 16), (25, 64)), ((20, 20), (7, 50))):
+            dst = GeoBox((40, 50), src.affine * M, src.crs)
+            yield dict(self=GeoboxTiles(dst, dt), src=GeoboxTiles(src, st), kind=name)
+        for crs, res in (("EPSG:4326", 0.0002), ("EPSG:3857", 20.0)):
+            ext = src.extent.to_crs(crs).boundingbox
+            w, h = ext.span_x, ext.span_y
+            for dx in (0.0, 0.6, 3.0):
+                dst = GeoBox.from_bbox((ext.left + dx * w, ext.bottom, ext.right + dx * w, ext.top), crs, resolution=res)
+                yield dict(self=GeoboxTiles(dst, (30, 30)), src=GeoboxTiles(src, (16, 16)), kind=f"{crs}+{dx}")
+
+    return "28 same-CRS pairs (aligned, sub-pixel, scaled, rotated, touching, disjoint) x 2x2 tilings + 6 cross-CRS pairs (overlapping, partly, disjoint)", gen()
+
+
+def _gi_post(self, src, kind, result):
+    deps = result
+    ok = True
+    for didx in [(r, c) for r in range(self.shape.y) for c in range(self.shape.x)]:
+        dext = self[didx].extent
+        if src.base.crs != self.base.crs:
+            dext_s = dext.to_crs(src.base.crs)
+        else:
+            dext_s = dext
+        got = set(map(tuple, deps.get(didx, [])))
+        for sidx in [(r, c) for r in range(src.shape.y) for c in range(src.shape.x)]:
+            sext = src[sidx].extent
+            inter = sext.intersection(dext_s)
+            if inter.area > 0.02 * min(sext.area, dext_s.area):  # overlaps beyond a sliver
+                if sidx not in got:
+                    ok = False
+    if kind.startswith("disjoint") or kind.endswith("+3.0"):
+        ok = ok and all(len(v) == 0 for v in deps.values())
+    return ok
+
+
+contract(
+    f"{GBX}:GeoboxTiles.grid_intersect",
+    ["C12"],
+    ensures=[("for every destination tile every source tile that overlaps it beyond a sliver is listed; rasters that do not overlap give empty lists (no error)", lambda self, src, kind, result: _gi_post(self, src, kind, result))],
+    verify=False,
+    trusted_reason="loops over numpy.ndindex, shapely footprints, pyproj: BOUNDED native check against brute force over all tile pairs",
+    native_samples=_gi_samples,
+)
